@@ -90,11 +90,29 @@ class FakeGlob:
 
 
 class FixedRandom:
+    """The harness owns the driver's random source: every draw yields the v-th possible outcome (1-based, wrapping) of the
+    range the CODE asked for - never a value outside that range, so a correct draw of any spelling stays legal, and with the
+    driver's own `randint(1, 255)` the v-th outcome is v itself."""
+
     def __init__(self, v):
         self.v = v
 
     def randint(self, a, b):
-        return self.v
+        return a + (self.v - 1) % (b - a + 1)
+
+    def randrange(self, a, b=None, step=1):
+        if b is None:
+            a, b = 0, a
+        return a + step * ((self.v - 1) % max(1, (b - a + step - 1) // step))
+
+    def getrandbits(self, k):
+        return (self.v - 1) % (1 << k)
+
+    def random(self):
+        return ((self.v - 1) % 256) / 256.0
+
+    def choice(self, seq):
+        return seq[(self.v - 1) % len(seq)]
 
 
 _REPORT = struct.Struct(">BB4sHB55x")
